@@ -152,6 +152,10 @@ ARGS = ["", "0", "1", "-1", "2147483648", "9223372036854775807", "-9223372036854
         "@17", "$$$", "charfromstr(\"a\",5)", "substr(\"\",0,0)", "strstr(\"\",\"\")", "cpu", "mompass", "moment",
         "1 2", "\"\\0\"", "\"\\i\"", "\"\\1000\"", "\"\\x1000\"", "(1<<63)/(0-1)", "(1<<63)#(0-1)", "1<<63", "0-(1<<63)"]
 CPUS = ["z80", "68000", "8051", "6502", "320c30", "16c84"]
+# degenerate operands substituted into instruction lines of the golden corpus (operand-level fault injection)
+OPERAND_POOL = ["", "()", "[]", "(", ")", "[", "]", "+", "-", "#", "@", "(,)", "(,x)", "[,]", "x+", "-x", "(x", "x)", "#(", "@()", "a:", ":", "*",
+                "<", ">", "{", "}", "'", "\"", "1(", "(1)+", "-(", "$", "0x", "()+", "-()", "@(,)", "(,,)", "((", "))", "[[", "]]", "(]", "[)",
+                "#", "##1", "@@", "+,", " ", "(a,b,c,d,e,f)", "[a,b,c,d,e]", "a.b.c.d", ".", "..w", ".l", "1:2:3", "r0:r1:r2", "x,x,x,x,x,x,x,x"]
 # macro definitions x call argument lists (enumerated completely)
 MAC_DECLS = ["", "a", "a,b", "a=5", "a,b=7", "a=1,b=2", "a,b,c", "{GLOBALSYMBOLS}", "a,{INTLABEL}", "lbl,a,{INTLABEL}", "a,{NOEXPAND}", "a=\"x,y\""]
 MAC_BODIES = ["\tdb a", "\tdb a,b", "\tdb ALLARGS", "\tdb ARGCOUNT", "\tshift\n\tdb a", "\tshift\n\tshift\n\tdb ARGCOUNT", "\tif ARGCOUNT>1\n\texitm\n\tendif\n\tdb 1",
@@ -299,6 +303,9 @@ def plan(tier, seed):
     n6 = 20000 if thorough else 1500
     for i in range(0, n6, 25):
         cases.append({"gen": "mutsrc", "seed": mix(seed, "mut", i), "n": 25})
+    nop_ = 150000 if thorough else 3000
+    for i in range(0, nop_, 50):
+        cases.append({"gen": "opmut", "seed": mix(seed, "opmut", i), "n": 50})
     # E7 vocabulary
     if thorough:
         total = len(CPUS) * len(PSEUDO) * len(ARGS)
@@ -628,6 +635,37 @@ def run_case(sim, case):
                 acc.seen_cls.discard(cls)
                 acc.bump(acc.probes, "hang_ignored_while_or_recursive_macro")
         acc.sample = {"space": "E6", "n": case["n"]}
+    elif g == "opmut":
+        rng = Rng(case["seed"])
+        tests = [t for t in corpus.tests() if len(t.src) <= 60000]
+        for _ in range(case["n"]):
+            t = rng.choice(tests)
+            lines = t.src.split(b"\n")
+            cand = [i for i, ln in enumerate(lines) if ln[:1] in (b" ", b"\t") and len(ln.split(None, 1)) == 2 and not ln.lstrip().startswith(b";")]
+            if not cand:
+                continue
+            i = rng.choice(cand)
+            ind = lines[i][:len(lines[i]) - len(lines[i].lstrip())]
+            mnem, rest = lines[i].split(None, 1)
+            rest = rest.split(b";")[0].rstrip()
+            ops = rest.split(b",")
+            k = rng.below(len(ops) + 1)
+            sub = rng.choice(OPERAND_POOL).encode()
+            if k == len(ops):
+                ops.append(sub)
+            else:
+                ops[k] = sub
+            lines[i] = ind + mnem + b"\t" + b",".join(ops)
+            src = b"\n".join(lines)
+            sc = dict(argv=list(t.flags) + ["-q", "-i", "/sim/inc", "/w/mut.asm", "-o", "/w/mut.p", "-shareout", "/w/mut.h"],
+                      cwd="/sim/tests/" + t.name, disk={"/w/mut.asm": src},
+                      env={"LANG": "C", "ASL_VERIF_MAX_LINES": "400000"}, max_disk=32 << 20, cpu=30)
+            r, san, cls = run_one(sim, acc, "asl", sc, "operand fault %s line %d: %s" % (t.name, i + 1, lines[i].decode("latin1").strip()), "operand-fault")
+            if cls and "hang" in cls and may_not_terminate(src):
+                acc.violations = [v for v in acc.violations if v["class"] != cls]
+                acc.seen_cls.discard(cls)
+                acc.bump(acc.probes, "hang_ignored_while_or_recursive_macro")
+        acc.sample = {"space": "operand-level faults in golden sources", "example": lines[i].decode("latin1")}
     elif g in ("vocab1", "vocab1s"):
         def one(ci, pi, ai, labelled):
             src = "\tcpu %s\n%s\t%s\t%s\n" % (CPUS[ci], "lab" if labelled else "", PSEUDO[pi], tame(PSEUDO[pi], ARGS[ai]))
